@@ -12,7 +12,6 @@ import (
 
 	"verif/internal/hx"
 	"verif/internal/kf"
-	"verif/internal/memfs"
 	"verif/internal/run"
 	"verif/internal/vals"
 )
@@ -67,6 +66,7 @@ type CaseA struct {
 	Decoy bool              `json:"decoy,omitempty"` // absent sources exist/are called, but define another key
 	Name  string            `json:"name,omitempty"`  // map data only: the key's name when it is not "kv" (names of default template functions)
 	Site  string            `json:"site,omitempty"`  // where the key is read: "" the page (no layouts) | chain-page | chain-mid | chain-outer: the page, the middle or the outer layout of the chain page.vuego -> layouts/post.vuego -> layouts/base.vuego (Have may then contain "lmid" / "louter": the key in the front-matter of the middle / outer layout)
+	Store string            `json:"store,omitempty"` // how the files are stored: "" one filesystem | an OverlayFS layout, see stores
 	Ext   string            `json:"ext,omitempty"`   // names of the data files: "" a.yml+b.yml | yaml+yml | yml+yaml | yaml+yaml | samestem (c.yaml+c.yml)
 }
 
@@ -601,7 +601,10 @@ func checkA(c CaseA) error {
 	}
 	k := c.key()
 	wsrc, wv, any := c.winner()
-	fsys := memfs.FromMap(c.files())
+	fsys, err := buildFS(c.files(), c.Store, []string{k})
+	if err != nil {
+		return err
+	}
 
 	var base vuego.Template
 	if c.Ctor == "withfs" {
@@ -630,6 +633,9 @@ func checkA(c CaseA) error {
 
 	// every recognisable value that must NOT be seen: the values of the losing sources
 	losers := func(got string) error {
+		if strings.Contains(got, "shadowed") {
+			return fmt.Errorf("%s: saw %q: the value of a config file that an upper overlay layer shadows", desc, got)
+		}
 		if strings.Contains(got, "decoy") {
 			return fmt.Errorf("%s: a value of an unrelated key leaked into %q: %q", desc, k, got)
 		}
@@ -879,6 +885,24 @@ func enumA(f func(c CaseA, excluded string) bool) {
 				have = append(have, s)
 			}
 		}
+		// the same files stored in the layers of an OverlayFS
+		for _, store := range stores {
+			vs := map[string]vals.V{}
+			for _, s := range have {
+				vs[s] = canon("string", s, 0)
+			}
+			for _, pos := range positions {
+				for _, decoy := range []bool{false, true} {
+					if len(have) == 0 && pos == "expr" {
+						continue
+					}
+					c := CaseA{Have: have, Vals: vs, VType: "string", Ctor: "newfs", Fill: "map", Addr: "key", Pos: pos, Decoy: decoy, Store: store}
+					if !f(c, excludedA(known, c)) {
+						return
+					}
+				}
+			}
+		}
 		// read sites inside a layout chain page -> layouts/post -> layouts/base, with the key also
 		// (or only) in the front-matter of the middle and/or outer layout
 		for _, site := range []string{"chain-page", "chain-mid", "chain-outer"} {
@@ -1053,6 +1077,14 @@ func classifyA(c CaseA) (bool, []string) {
 	}
 	if c.Name != "" {
 		cls = append(cls, "key-named-like-a-template-function")
+	}
+	if c.Store != "" {
+		cls = append(cls, "store=overlay/"+c.Store)
+		if c.has("da") || c.has("db") {
+			cls = append(cls, "overlay-with-data-files-defining-the-key")
+		}
+	} else {
+		cls = append(cls, "store=single-fs")
 	}
 	if c.Site != "" {
 		cls = append(cls, "site="+c.Site)
